@@ -345,6 +345,8 @@ fn run_fixed(spec: &StreamSpec, data: &Rc<Vec<u8>>, exp: &Expected, sched: Vec<u
     classify_boundaries(&c, exp, spec.storage, loc);
     if let Some(why) = disagreement(&obs, exp) {
         report(spec, exp, &obs, sdesc, why, loc);
+    } else {
+        loc.sample(|| json!({"stream": hex_short(&spec.bytes), "what": spec.what, "schedule": sdesc, "results": obs.iter().map(|c| code_name(*c)).collect::<Vec<_>>()}));
     }
     obs
 }
@@ -399,6 +401,9 @@ fn run_explore(spec: &StreamSpec, bound: u32, full_menu_limit: usize, max_exec: 
     }
     if capped {
         loc.outcome("streams whose exploration hit the execution cap");
+    }
+    if viols.is_empty() {
+        loc.sample(|| json!({"stream": hex_short(&spec.bytes), "what": spec.what, "executions": count, "deviation_bound": bound, "results_of_default_schedule": first_obs.as_ref().map(|o| o.iter().map(|c| code_name(*c)).collect::<Vec<_>>())}));
     }
     for (obs, sched, why) in viols {
         report(spec, &exp, &obs, sched, why, loc);
